@@ -293,7 +293,8 @@ func HTMLDoc(r *rand.Rand, o HTMLOpts) (doc string, toks []XTok) {
 			name := Pick(r, htmlRaw)
 			startTag(name)
 			attrs(r.Intn(2))
-			closeTag(false)
+			// written XHTML-style with "/>" a raw text element is still open: HTML knows no self-closing script, style, …
+			closeTag(r.Intn(6) == 0)
 			if body, hasT := rawContent(name); body != "" {
 				emit(XTok{Type: "Text", Data: body, Text: body, Tmpl: hasT})
 			}
